@@ -207,6 +207,20 @@ class Verifier:
         def _exists_cells(I_, a, k):
             return self.quant_cells(a[0], a[1], False)
 
+        @b('contract_input')
+        def _contract_input(I_, a, k):
+            si = self.state.inputs.get(a[0])
+            return si.value if si is not None else a[1]
+
+        @b('forall_obj')
+        def _forall_obj(I_, a, k):
+            o = I.objmodel.fresh_obj('qo')
+            from .interp import DEAD
+            body = I.pure(lambda: I.truth_term(I.call(a[0], [o], {})), None)
+            if body is DEAD:
+                return True
+            return z3.ForAll([o.term], zbool(body))
+
         @b('forall_int')
         def _forall_int(I_, a, k):
             return self.quant_int(a[0], a[1], a[2], True)
@@ -218,6 +232,28 @@ class Verifier:
         @b('same')
         def _same(I_, a, k):
             return self.same(a[0], a[1])
+
+        @b('possible')
+        def _possible(I_, a, k):
+            # some outcome of the generator's draws makes the condition true:
+            # exists D'. range(D') and (path facts mentioning D)[D'] and cond[D']
+            rng, thunk = a[0], a[1]
+            syms = []
+            for d in rng.draws:
+                if d[0] in ('choice', 'choices', 'integers', 'random'):
+                    syms.extend(d[1])
+                else:
+                    raise Unsupported('possible() over array draws')
+            cond = zbool(I.truth_term(I.call(thunk, [], {})))
+            if not syms:
+                return cond
+            from .lib import _consts
+            symids = {s_.get_id() for s_ in syms}
+            facts = [f for f in I.pc if any(c.get_id() in symids for c in _consts(f))]
+            fresh = [z3.Const(I.fresh_name('outcome'), s_.sort()) for s_ in syms]
+            pairs = list(zip(syms, fresh))
+            body = z3.And(*[z3.substitute(f, *pairs) for f in facts], z3.substitute(cond, *pairs))
+            return z3.Exists(fresh, body)
 
         @b('draws')
         def _draws(I_, a, k):
